@@ -100,10 +100,11 @@ def base_config(d, *, otel=True):
 
 def project_strategy(**kw):
     cfg_fn = kw.pop("config_fn", base_config)
+    force = tuple(kw.pop("force_features", ()))
 
     @st.composite
     def _s(draw):
-        d = D(draw)
+        d = D(draw, force=force)
         cfg = cfg_fn(d)
         case = build(d, config=cfg, **kw)
         case.pop("_desc_obj", None)
